@@ -1073,6 +1073,16 @@ class Engine(object):
                                              'assignment': assign})
             return
         env = _FloatEnv(assign)
+        # the model interprets uninterpreted functions freely (within the lemmas): compare only
+        # when the real functions drive the concrete run down the same path
+        try:
+            same_path = all(float_eval(lit, env.env, env.memo) is True or float_eval(lit, env.env, env.memo) == True  # noqa: E712
+                            for lit in ctx.input_pc)
+        except (KeyError, ZeroDivisionError, OverflowError, ValueError, TypeError):
+            same_path = False
+        if not same_path:
+            self.stats.validation_skipped += 1
+            return
         for (n1, v1), (n2, v2) in zip(ctx.outputs, cc.outputs):
             if not _outputs_agree(env, v1, v2):
                 self.validation_failures.append({'config': self.config_name,
